@@ -416,6 +416,11 @@ def glitch_failures(prog, steps):
                         recreated = any(q["name"] == x and q["start"] > pos and dq > 0 for q, dq in zip(spans, depths))
                         if recreated and not [d for d in prev.get(x, {}).get("deps", []) if d != "?"]:
                             continue
+                        # a selector is up to date up to its equality: an instance that kept its old value because the new one
+                        # compared equal holds a different number than a freshly created instance would
+                        kk = comps[x][1] if comps[x][0] == "selector" else 0
+                        if recreated and kk and n["value"] % kk == v % kk:
+                            continue
                         if taints is None:
                             taints = taint_map(st["events"], prev)
                         known = taints.get((r["name"], r["start"]))
